@@ -1,0 +1,46 @@
+//! Verification hook (C12): mounted as `crate::gossip::verif_handshake` (a child of `gossip`, so that the
+//! `pub(super)` handshake functions are reachable). Thin wrappers, no behaviour of their own.
+use std::sync::Arc;
+
+use zksync_concurrency::ctx;
+use zksync_consensus_roles::{node, validator};
+
+use super::{handshake, Connection};
+use crate::{noise, verif::handshake::HsError, Config};
+
+fn class(e: handshake::Error) -> (HsError, String) {
+    let s = format!("{e:#}");
+    let c = match e {
+        handshake::Error::GenesisMismatch => HsError::Genesis,
+        handshake::Error::SessionIdMismatch => HsError::Session,
+        handshake::Error::PeerMismatch => HsError::Peer,
+        handshake::Error::Signature(_) => HsError::Signature,
+        handshake::Error::Stream(_) => HsError::Stream,
+    };
+    (c, s)
+}
+
+/// `gossip::handshake::outbound`.
+pub(crate) async fn outbound(
+    ctx: &ctx::Ctx,
+    cfg: &Config,
+    genesis: validator::GenesisHash,
+    stream: &mut noise::Stream,
+    peer: &node::PublicKey,
+) -> Result<Connection, (HsError, String)> {
+    handshake::outbound(ctx, cfg, genesis, stream, peer)
+        .await
+        .map_err(class)
+}
+
+/// `gossip::handshake::inbound`.
+pub(crate) async fn inbound(
+    ctx: &ctx::Ctx,
+    cfg: &Config,
+    genesis: validator::GenesisHash,
+    stream: &mut noise::Stream,
+) -> Result<Arc<Connection>, (HsError, String)> {
+    handshake::inbound(ctx, cfg, genesis, stream)
+        .await
+        .map_err(class)
+}
